@@ -314,6 +314,7 @@ func c09Exec(t *testing.T, rng *vrng, transport string, plan []string) (c09In, c
 	internalOf := map[int]int{} // tx -> internal waiter id
 	internalDone := map[int]bool{} // internal waiter already has its outcome
 	observed := map[int]bool{}
+	replaced := map[int]bool{}
 	closed := false
 	rowLen := func(tx int) int {
 		mon.mtx.Lock()
@@ -489,6 +490,7 @@ func c09Exec(t *testing.T, rng *vrng, transport string, plan []string) (c09In, c
 			return nil, 0
 		}
 	}
+	var midDelivery func() // run once, right after the next batch's answers were released
 	finishBatch := func(conf uint64, hs []common.Hash, classes func(tx int) string) {
 		answers := map[common.Hash]string{}
 		for _, hash := range hs {
@@ -505,11 +507,18 @@ func c09Exec(t *testing.T, rng *vrng, transport string, plan []string) (c09In, c
 			tx := h.idx[hash]
 			in.Steps = append(in.Steps, c09Step{T: "reply", C: conf, Nonce: h.nonces[tx], Tx: tx, Ans: answers[hash]})
 		}
+		ranMid := false
+		if midDelivery != nil {
+			f := midDelivery
+			midDelivery = nil
+			f()
+			ranMid = true // the hook waited for the hand-out itself; a row may legitimately exist again
+		}
 		// wait until the rows that must disappear did (give up after the first that does not)
 		stuck := false
 		for _, hash := range hs {
 			tx := h.idx[hash]
-			if a := answers[hash]; a != "othererr" && !stuck {
+			if a := answers[hash]; a != "othererr" && !stuck && !ranMid {
 				stuck = !waitFor(func() bool { return rowLen(tx) == 0 })
 			}
 		}
@@ -624,6 +633,154 @@ func c09Exec(t *testing.T, rng *vrng, transport string, plan []string) (c09In, c
 			if hs, nb := startRound(conf); hs != nil {
 				finishRound(conf, hs, nb, classOf)
 			}
+		case p == "cancel-ok" || p == "cancel-fail":
+			// CancelTx on a transaction the client still tracks; the chain node accepts or rejects
+			// the replacement.  Accepted: the replacement is a transaction the node sent (same
+			// nonce, new hash).  Rejected: nothing was sent, nothing may be listed.
+			if closed {
+				continue
+			}
+			tx := stillPending()
+			if tx < 0 || replaced[tx] {
+				continue // (cancelling the same transaction twice builds the very same replacement)
+			}
+			h.stub.mu.Lock()
+			h.stub.pendingErr, h.stub.fault = false, ""
+			if p == "cancel-fail" {
+				h.stub.fault = "submit"
+			}
+			h.stub.mu.Unlock()
+			nh, err := c.CancelTx(context.Background(), h.hashes[tx])
+			h.stub.mu.Lock()
+			h.stub.fault = ""
+			h.stub.mu.Unlock()
+			if err == nil {
+				replaced[tx] = true
+				ntx := len(h.hashes)
+				h.mu.Lock()
+				h.hashes = append(h.hashes, nh)
+				h.nonces = append(h.nonces, h.nonces[tx])
+				h.idx[nh] = ntx
+				h.mu.Unlock()
+				waitFor(func() bool { return rowLen(ntx) >= 1 })
+				in.Steps = append(in.Steps, c09Step{T: "send", Nonce: h.nonces[tx], Tx: ntx})
+				internalOf[ntx] = nextID
+				nextID++
+			}
+		case p == "round-watch-during-delivery":
+			// a waiter registers while the monitor is in the middle of handing out the outcome of
+			// that very transaction: an unbuffered channel placed first in the row holds the
+			// delivery loop until the harness takes the outcome
+			if closed || len(h.hashes) == 0 {
+				continue
+			}
+			tx := stillPending()
+			if tx < 0 || internalDone[tx] {
+				continue
+			}
+			conf := h.nonces[len(h.nonces)-1] + 1
+			if rowsBelow(conf) > batchSize {
+				continue
+			}
+			// S (buffered) then G (unbuffered) lead the row: once S holds its outcome the delivery
+			// loop is standing at G
+			S := make(chan Result, 1)
+			G := make(chan Result)
+			allowG := make(chan struct{})
+			mon.mtx.Lock()
+			row := mon.waitMap[h.nonces[tx]][h.hashes[tx]]
+			if len(row) == 0 {
+				mon.mtx.Unlock()
+				continue
+			}
+			mon.waitMap[h.nonces[tx]][h.hashes[tx]] = append([]chan Result{S, G}, row...)
+			mon.mtx.Unlock()
+			outcomeOf := func(r Result) string {
+				switch {
+				case r.Err == nil && r.Receipt != nil:
+					h.mu.Lock()
+					j, ok := h.idx[r.Receipt.TxHash]
+					h.mu.Unlock()
+					if !ok {
+						j = -1
+					}
+					return fmt.Sprintf("receipt:%d:%d", j, r.Receipt.Status)
+				case errors.Is(r.Err, ErrTxnCancelled):
+					return "cancelled"
+				case errors.Is(r.Err, ErrMonitorClosed):
+					return "closed"
+				}
+				return "error"
+			}
+			var ges [2]*c09Ext
+			for k := range ges {
+				in.Steps = append(in.Steps, c09Step{T: "watch", Nonce: h.nonces[tx], Tx: tx})
+				ges[k] = &c09Ext{id: nextID, tx: tx, done: make(chan string, 1), stop: func() {}}
+				nextID++
+				exts = append(exts, ges[k])
+			}
+			go func() {
+				<-allowG
+				for k, ch := range []chan Result{S, G} {
+					select {
+					case r := <-ch:
+						ges[k].done <- outcomeOf(r)
+					case <-time.After(20 * time.Second):
+						ges[k].done <- "none"
+					}
+				}
+			}()
+			hs, nb := startRound(conf)
+			if hs == nil {
+				close(allowG)
+				continue
+			}
+			midDelivery = func() {
+				if !waitFor(func() bool { return len(S) == 1 }) { // the delivery loop stands at the held channel
+					close(allowG)
+					return
+				}
+				ctx, cancel := context.WithCancel(context.Background())
+				e := &c09Ext{id: -1, tx: tx, done: make(chan string, 1), stop: cancel}
+				go func() {
+					r, err := c.WaitForReceipt(ctx, h.hashes[tx])
+					switch {
+					case err == nil:
+						h.mu.Lock()
+						j, ok := h.idx[r.TxHash]
+						h.mu.Unlock()
+						if !ok {
+							j = -1
+						}
+						e.done <- fmt.Sprintf("receipt:%d:%d", j, r.Status)
+					case errors.Is(err, ErrTxnCancelled):
+						e.done <- "cancelled"
+					case errors.Is(err, ErrMonitorClosed):
+						e.done <- "closed"
+					case errors.Is(err, context.Canceled):
+						e.done <- "none"
+					case strings.Contains(err.Error(), "tx not found"):
+						e.done <- "unknown-tx"
+					default:
+						e.done <- "error"
+					}
+				}()
+				time.Sleep(10 * time.Millisecond) // the newcomer runs as far as the monitor lets it
+				close(allowG)
+				// its registration completes once the row was handed out and deleted
+				waitFor(func() bool { return rowLen(tx) >= 1 })
+				in.Steps = append(in.Steps, c09Step{T: "watch", Nonce: h.nonces[tx], Tx: tx})
+				e.id = nextID
+				nextID++
+				exts = append(exts, e)
+			}
+			finishRound(conf, hs, nb, func(t int) string {
+				if t == tx {
+					return "receipt-ok"
+				}
+				return classOf(t)
+			})
+			midDelivery = nil
 		case p == "close-racing-watch":
 			if closed {
 				continue
@@ -747,6 +904,10 @@ func TestVerifC09(t *testing.T) {
 		{"send", "send", "watch", "close-racing-watch"},
 		{"send", "watch", "round", "send", "close-racing-watch", "watch"},
 		{"bigsend", "watch", "watch", "round-all", "watch", "round-all", "close"},
+		{"send", "send", "watch", "round-watch-during-delivery", "close"},
+		{"send", "watch", "round-watch-during-delivery", "round-all", "watch", "close"},
+		{"send", "send", "cancel-fail", "watch", "round-all", "close"},
+		{"send", "cancel-ok", "watch", "cancel-fail", "round-all", "round-all", "close"},
 	}
 	emitCase := func(transport string, plan []string) {
 		caseNo := out.n
@@ -771,7 +932,8 @@ func TestVerifC09(t *testing.T) {
 			emitCase(tr, p)
 		}
 	}
-	acts := []string{"send", "send", "watch", "watch", "round", "round", "round-all", "round-watch-inflight", "round-close-inflight", "close", "close-racing-watch"}
+	acts := []string{"send", "send", "watch", "watch", "round", "round", "round-all", "round-watch-inflight", "round-close-inflight", "close", "close-racing-watch",
+		"round-watch-during-delivery", "cancel-ok", "cancel-fail"}
 	for i := 0; i < vcount(60, 1200); i++ {
 		var plan []string
 		n := 3 + rng.intn(vcount(10, 24))
